@@ -2,6 +2,7 @@
 #include "world.hpp"
 
 #include <sqlite3.h>
+#include <unistd.h>
 
 #include <algorithm>
 
@@ -82,6 +83,8 @@ Json Config::to_json() const
     j.set("sector", sector);
     j.set("checks", (long long)checks);
     j.set("table_api", table_api);
+    if (twice)
+        j.set("twice", true);
     j.set("profile", profile);
     Json g = Json::object();
     g.set("long_labels", gf.long_labels);
@@ -106,6 +109,7 @@ Config Config::from_json(const Json& j)
     c.sector = (int)j.geti("sector", 4096);
     c.checks = (uint32_t)j.geti("checks", CK_ALL);
     c.table_api = j.getb("table_api", false);
+    c.twice = j.getb("twice", false);
     c.profile = j.gets("profile");
     if (auto* g = j.find("gen"))
     {
@@ -219,12 +223,16 @@ World::World(const Plan& p) : plan(p)
     g_taps.begin_call();
     g_taps.total_stmts = g_taps.total_ticks = g_taps.total_mallocs = 0;
     g_sim_clock = 1600000000 + (int64_t)(p.seed % 100000);
+    if (getenv("DJSIM_LOGDUMP") || access("/tmp/DJSIM_LOGDUMP", F_OK) == 0)
+        hash_dump_target() = &log;
     log.str("plan");
     log.u64(p.digest());
 }
 
 World::~World()
 {
+    if (hash_dump_target() == &log)
+        hash_dump_target() = nullptr;
     foreign_forget();
     tracks.clear();
     crates.clear();
@@ -544,6 +552,26 @@ void World::run()
         if (role == FR_MDB_JOURNAL || role == FR_PDB_JOURNAL)
             probes.hit("journal_left_after_close");
     }
+    if (hash_dump_target() == &log)
+        for (auto& kv : g_disk.files)
+        {
+            Hasher h;
+            h.bytes(kv.second->bytes.data(), kv.second->bytes.size());
+            fprintf(stderr, "FILE %s %zu %016llx\n", kv.first.c_str(), kv.second->bytes.size(), (unsigned long long)h.value());
+            if (getenv("DJSIM_FILEDUMP"))
+            {
+                std::string out = std::string(getenv("DJSIM_FILEDUMP")) + "_" + std::to_string(hash_str(kv.first) % 1000);
+                FILE* f = fopen(out.c_str(), "wb");
+                if (f)
+                {
+                    fwrite(kv.second->bytes.data(), 1, kv.second->bytes.size(), f);
+                    fclose(f);
+                }
+            }
+        }
+    if (hash_dump_target() == &log)
+        for (auto& d : g_disk.dirs)
+            fprintf(stderr, "DIR %s\n", d.c_str());
     log.u64(g_disk.image_hash());
 }
 
